@@ -16,13 +16,14 @@ CONSTANTS Mode,        \* "tokens" | "chars"
           MaxLen,      \* tokens: max number of tokens; chars: max string length
           Blanks,      \* tokens mode: also generate a blank in front of tokens
           Alphabet,    \* chars mode: the characters strings are made of
+          NumSet,      \* tokens mode: the number literals
           Deviations   \* subset of {"unaryReduce", "negPriority", "adjacentParens", "nullaryInternal"}: as-is behaviours of
                        \* the unrepaired code, {} in every claimed configuration
 
 VARIABLES s, ntok, depth, expect
 vars == <<s, ntok, depth, expect>>
 
-Nums == {"0", "2", "3", ".5", "10", "1.5"}
+Nums == NumSet
 Bin == {"+", "-", "*", "/", "\\"}
 
 Init == s = "" /\ ntok = 0 /\ depth = 0 /\ expect = "operand"
@@ -81,26 +82,26 @@ RECURSIVE DigEnd(_)
 DigEnd(i) == IF IsDigit(C(i)) THEN DigEnd(i + 1) ELSE i
 FAIL == [ok |-> FALSE, v |-> <<0, 1>>, p |-> 0, scope |-> TRUE, exact |-> TRUE, dy |-> TRUE]
 Leaf(t, k) == LET v == NumVal(t) IN [ok |-> TRUE, v |-> v, p |-> k, scope |-> TRUE, exact |-> TRUE, dy |-> Dyadic(v)]
-CNumber(i) ==                        \* longest literal starting at i, or FAIL
+CNumber(i, L) ==                     \* longest literal starting at i, or FAIL; L: also read "1." as the number 1 (see Silent)
     IF C(i) = "." THEN LET k == DigEnd(i + 1) IN
                        IF k > i + 1 THEN Leaf(SubSeq(s, i, k - 1), k) ELSE FAIL
     ELSE LET k == DigEnd(i) IN
          IF k = i THEN FAIL
          ELSE IF C(k) = "." THEN LET k2 == DigEnd(k + 1) IN
                                  IF k2 > k + 1 THEN Leaf(SubSeq(s, i, k2 - 1), k2)
-                                 ELSE FAIL          \* "1." : see Silent below
+                                 ELSE IF L THEN Leaf(SubSeq(s, i, k - 1), k + 1) ELSE FAIL
          ELSE Leaf(SubSeq(s, i, k - 1), k)
 
-RECURSIVE CExpr(_), CExprTail(_, _), CTerm(_), CTermTail(_, _, _, _), CUnary(_)
-CUnary(i0) == LET i == WsEnd(i0) IN
-    IF C(i) = "-" THEN LET r == CUnary(i + 1) IN IF r.ok THEN [r EXCEPT !.v = RNeg(r.v)] ELSE FAIL
-    ELSE IF C(i) = "+" THEN CUnary(i + 1)
-    ELSE IF C(i) = "(" THEN LET r == CExpr(i + 1) IN
+RECURSIVE CExpr(_, _), CExprTail(_, _, _), CTerm(_, _), CTermTail(_, _, _, _, _), CUnary(_, _)
+CUnary(i0, L) == LET i == WsEnd(i0) IN
+    IF C(i) = "-" THEN LET r == CUnary(i + 1, L) IN IF r.ok THEN [r EXCEPT !.v = RNeg(r.v)] ELSE FAIL
+    ELSE IF C(i) = "+" THEN CUnary(i + 1, L)
+    ELSE IF C(i) = "(" THEN LET r == CExpr(i + 1, L) IN
                             IF r.ok /\ C(WsEnd(r.p)) = ")" THEN [r EXCEPT !.p = WsEnd(r.p) + 1] ELSE FAIL
-    ELSE CNumber(i)
-CTermTail(acc, i0, hasInt, hasMul) == LET i == WsEnd(i0) IN
+    ELSE CNumber(i, L)
+CTermTail(acc, i0, hasInt, hasMul, L) == LET i == WsEnd(i0) IN
     IF acc.ok /\ C(i) \in {"*", "/", "\\"}
-    THEN LET r == CUnary(i + 1)
+    THEN LET r == CUnary(i + 1, L)
              hi == hasInt \/ C(i) = "\\"
              hm == hasMul \/ C(i) \in {"*", "/"}
          IN IF ~r.ok THEN FAIL
@@ -111,25 +112,28 @@ CTermTail(acc, i0, hasInt, hasMul) == LET i == WsEnd(i0) IN
                             exact |-> /\ acc.exact /\ r.exact
                                       /\ (C(i) = "\\" => acc.dy /\ r.dy)
                                       /\ (C(i) \in {"/", "\\"} /\ r.v[1] = 0 => r.dy)],
-                           r.p, hi, hm)
+                           r.p, hi, hm, L)
     ELSE acc
-CTerm(i) == LET r == CUnary(i) IN IF r.ok THEN CTermTail(r, r.p, FALSE, FALSE) ELSE FAIL
-CExprTail(acc, i0) == LET i == WsEnd(i0) IN
+CTerm(i, L) == LET r == CUnary(i, L) IN IF r.ok THEN CTermTail(r, r.p, FALSE, FALSE, L) ELSE FAIL
+CExprTail(acc, i0, L) == LET i == WsEnd(i0) IN
     IF acc.ok /\ C(i) \in {"+", "-"}
-    THEN LET r == CTerm(i + 1) IN
+    THEN LET r == CTerm(i + 1, L) IN
          IF ~r.ok THEN FAIL
          ELSE LET res == Apply(C(i), acc.v, r.v) IN
               CExprTail([ok |-> TRUE, v |-> res, p |-> r.p, scope |-> acc.scope /\ r.scope,
                          dy |-> acc.dy /\ r.dy /\ (res = ZDE \/ Dyadic(res)),
-                         exact |-> acc.exact /\ r.exact], r.p)
+                         exact |-> acc.exact /\ r.exact], r.p, L)
     ELSE acc
-CExpr(i) == LET r == CTerm(i) IN IF r.ok THEN CExprTail(r, r.p) ELSE FAIL
+CExpr(i, L) == LET r == CTerm(i, L) IN IF r.ok THEN CExprTail(r, r.p, L) ELSE FAIL
 
 \* outcome classes: "val" (with value), "zde", "perr" (the module's parse error), "internal"
-Contract == LET r == CExpr(1) IN
+ContractOf(L) == LET r == CExpr(1, L) IN
             IF r.ok /\ r.p = Len(s) + 1
             THEN [k |-> IF r.v = ZDE THEN "zde" ELSE "val", v |-> r.v, scope |-> r.scope, exact |-> r.exact]
             ELSE [k |-> "perr", v |-> <<0, 1>>, scope |-> TRUE, exact |-> TRUE]
+Contract == ContractOf(FALSE)
+\* the reading in which a literal "1." is the number 1: inputs with such a literal may either raise the parse error or have this value
+Lenient == ContractOf(TRUE)
 
 (* Inputs on which the statement does not determine the outcome: the empty    *)
 (* string (evaluate returns None), trailing blanks (the reference raises),    *)
@@ -231,5 +235,7 @@ NoInternal == Complete => Machine.k # "internal"
 
 Dump == Complete =>
           LET c == Contract IN
-          PrintT(<<"VEC", ToJson([e |-> s, k |-> c.k, v |-> c.v, scope |-> c.scope, exact |-> c.exact, silent |-> Silent])>>)
+          PrintT(<<"VEC", ToJson([e |-> s, k |-> c.k, v |-> c.v, scope |-> c.scope, exact |-> c.exact, silent |-> Silent,
+                                   trailingBlank |-> (s # "" /\ IsWhite(C(Len(s)))), lk |-> Lenient.k, lv |-> Lenient.v, lexact |-> Lenient.exact,
+                                   lscope |-> Lenient.scope])>>)
 =============================================================================
